@@ -37,6 +37,9 @@ MALFORMED = [b"\n", b"*\n", b";\n", b"*;\n", b"x\n", b"*8;\n", b"*8d4;\n", b"*zz
              b"*\xc3\xa9\xc3\xa9;\n", b"\xc3\xa9\n", b"*\xff\xfe\xfd;\n", b"\xff\n", b"*00000000000000;\n", b"*0000000000000000000000000000;\n",
              b"*0aabcdef123456;\n", b"*" + b"11" * 150 + b";\n", b"garbage without star or semicolon\n", b"\r\n", b"*8D40621D58C382D690C8AC2863A7;\r\n"]
 
+# very long lines: longer than any plausible line-buffer bound (4 KiB, BufReader's 8 KiB, 64 KiB); malformed or not, each is one line
+LONG = [b"x" * 4096 + b"\n", b"*" + b"zz" * 2048 + b";\n", b"*" + b"5" * 9001 + b";\n", b"*" + b"00" * 5000 + b";\n", b"*" + b"8d" * 35000 + b";\n"]
+
 def corpus(rng, n, planes=3):
     """a feed: valid frames of a few aircraft mixed with malformed lines"""
     flights = [gentrack.Flight(rng, 0xA00000 + rng.below(0xFFFFF), (39.0, -77.0)) for _ in range(planes)]
@@ -49,6 +52,7 @@ def corpus(rng, n, planes=3):
         elif r < 7: lines.append(fline(f.frame(gentrack.me_velocity(1, 0, 100 + rng.below(300), 1, 50 + rng.below(300), 0, 10))))
         elif r < 8: lines.append(fline(rand_frame(rng, rng.choice([0, 4, 5, 11, 20, 21]))))
         else: lines.append(rng.choice(MALFORMED))
+    for l in LONG: lines.insert(2 + rng.below(max(1, len(lines) - 4)), l)       # each long line once, never first or last
     return lines
 
 def segmentations(rng, lines):
@@ -62,8 +66,10 @@ def segmentations(rng, lines):
     # random chunking with long gaps in the middle of lines
     sc = []; i = 0
     while i < len(stream):
-        n = 1 + rng.below(40); sc.append(("send", stream[i:i + n])); i += n
-        if rng.chance(1, 12): sc.append(("sleep", 0.16))
+        nl = stream.find(b"\n", i)
+        far = nl < 0 or nl - i > 400                      # inside one of the very long lines: larger chunks, or the run takes minutes
+        n = 1 + (rng.below(40) if not far else 300 + rng.below(3000)); sc.append(("send", stream[i:i + n])); i += n
+        if rng.chance(1, 12 if not far else 4): sc.append(("sleep", 0.16))
     out.append(("random-chunks-gaps", sc))
     return out
 
